@@ -42,6 +42,10 @@ def scenarios(tier):
     # a name that STRADDLES offset 16383: owner 'b' = L0.L1.L2 starts at 16380, its labels L0/L1 begin at <= 16383, L2 at 16385;
     # the later name 'e' = L2 shares only the suffix that lies beyond 16383 and must therefore be written in full
     sc.append(('straddle', dict(q=[], an=[('NULL@16357', 'r', []), ('NS', 'b', ['e']), ('NS', 'e', ['a'])], ns=[], ar=[], opt=None)))
+    # exact edge of the 14-bit offset: label L1 of owner 'b' begins at 16383 (the last offset a pointer can hold: the later name
+    # 'a' = L1.L2 must be ONE pointer to it) resp. at 16384 (one too far: 'a' must be written in full)
+    sc.append(('edge16383', dict(q=[], an=[('NULL@16358', 'r', []), ('NS', 'b', ['e']), ('NS', 'a', ['e'])], ns=[], ar=[], opt=None)))
+    sc.append(('edge16384', dict(q=[], an=[('NULL@16359', 'r', []), ('NS', 'b', ['e']), ('NS', 'a', ['e'])], ns=[], ar=[], opt=None)))
     sc.append(('soa_minfo', dict(q=[], an=[('SOA', 'a', ['b', 'c'])], ns=[('MINFO', 'd', ['a', 'b'])], ar=[], opt=None)))
     if True:      # cheap enough for the quick tier as well
         sc.append(('rp_afsdb_rt', dict(q=['b'], an=[('RP', 'a', ['b', 'c']), ('AFSDB', 'b', ['a'])], ns=[('RouteThrough', 'c', ['b'])], ar=[], opt=None)))
@@ -179,8 +183,9 @@ class Builder:
             opt = Some(ov)
             self.opt_fields = g.opt_fields
             self.opt_wire = owire
-        elif self.rcode[1] > 15:
-            raise PathEnd('infeasible', 'rcode > 15 needs an OPT record (documented)')
+        self.ext_noopt = self.sc['opt'] is None and self.rcode[1] > 15
+        # rcode > 15 without an OPT record: the upper bits have nowhere to go (documented); the output must still be a
+        # well-framed message that parses (C04) - only the value comparison is skipped for these packets
         header = g.struct('Header', id=pid, opcode=En('OPCODE', self.opcode[0]), response_code=En('RCODE', self.rcode[0]),
                           z_flags=Agg('PacketFlag', (Agg('InternalBitFlags', (flags,)),)), opt=opt)
         self.pid, self.flags = pid, flags
@@ -374,6 +379,9 @@ def run_task(prog, tid, params, tier):
         if o['p3'].var != 'Ok':
             return viol('comp-parse', 'the compressed serialisation is rejected by Packet::parse')
         p2, p3 = o['p2'].f[0], o['p3'].f[0]
+        if b.ext_noopt:
+            okp[0] += 1
+            return None
         if res.ctx.check(z3.Not(deep_eq(I, p2, I.pkt))):
             return viol('plain-eq', 'parse(build(p)) differs from p')
         if res.ctx.check(z3.Not(deep_eq(I, p3, p2))):
